@@ -214,7 +214,7 @@ class C15(Check):
     real = ["GridOperation.UncertaintyQuantification", "UQDistribution", "Grid.GlobalTrapezoidalGridWeighted", "Function.FunctionConcatenate / FunctionPower",
             "SpatiallyAdaptiveSingleDimensions2 and its refinement containers", "chaospy distributions (Uniform, Triangle)", "scipy.stats.norm"]
     stub = ["model values (AffineModel: [g, c g + e, const], g keyed hash or smooth)", "error-estimator answers (keyed draws)", "clocks"]
-    rule = ("schedule = distribution family per dimension (uniform, triangle, normal; finite or infinite support), parameters, boundary flag, "
+    rule = ("schedule = distribution family per dimension (uniform, triangle, normal; finite, half-infinite or infinite support), parameters, boundary flag, "
             "affine map (c, e), constant, strategy options and benefit answers for 1-6 evaluations of the real dimension-wise loop on the weighted "
             "grid. After every evaluation the moment identities are checked on one and the same refined grid; after every refinement step every "
             "performed split is checked (strictly inside, equal probability halves within the measured accuracy of the family's inverse cdf). "
